@@ -288,6 +288,32 @@ fn enumerate6(seed: u64, run: u64, tier: Tier, slices: u64) -> Plan {
         }
         read(&mut b, vec![BlobFault::Flip { byte: *byte, bit: *bit }], &with_u);
     }
+    // corruptions of the tag that cancel under a folded comparison: the same mask in two bytes whose
+    // distance is a word size, and whole words exchanged (the tag is the first field of every blob)
+    let tl = if f == 1 || f == 3 { 48 } else { 32 };
+    if !slow {
+        for dist in [1usize, 2, 4, 8, 16, 24, 32] {
+            for i in 0..tl {
+                let j = i + dist;
+                if j >= tl {
+                    break;
+                }
+                for mask_bit in [0u8, 7, (i % 6 + 1) as u8] {
+                    read(&mut b, vec![BlobFault::Flip { byte: i, bit: mask_bit }, BlobFault::Flip { byte: j, bit: mask_bit }], &with_u);
+                }
+            }
+        }
+        for n in [1usize, 2, 4, 8, 16] {
+            let mut a = 0;
+            while a + 2 * n <= tl {
+                read(&mut b, vec![BlobFault::SwapRanges { a, b: a + n, n }], &with_u);
+                if a + 3 * n <= tl {
+                    read(&mut b, vec![BlobFault::SwapRanges { a, b: a + 2 * n, n }], &with_u);
+                }
+                a += n;
+            }
+        }
+    }
     let step = if slow { 9 } else { 1 };
     for keep in (0..total).step_by(step) {
         read(&mut b, vec![BlobFault::TruncBack { keep }], &with_u);
